@@ -30,5 +30,5 @@ cd /verif
 for p in $props; do
   out=$(VERIF_REPO="$wt" ./check $p --tier quick 2>&1 | grep -v WARNING | grep -E "^VIOLATION|^$p quick" | tr '\n' ' ')
   echo "$p: $out" | tee -a $d/result.txt
-  if echo "$out" | grep -q VIOLATION; then mkdir -p $d/replay-$p; cp -r .build/alt_*/replay/$p/* $d/replay-$p/ 2>/dev/null; fi
+  if echo "$out" | grep -q VIOLATION; then mkdir -p $d/replay-$p; tag=$(python3 -c "import hashlib,sys;print(hashlib.sha1(sys.argv[1].encode()).hexdigest()[:8])" "$wt"); rm -rf $d/replay-$p/*; cp -r .build/alt_$tag/replay/$p/* $d/replay-$p/ 2>/dev/null; fi
 done
